@@ -61,6 +61,11 @@ CreateAddr(a, n) == "c_" \o a \o "_" \o ToString(n)
 (* The state threaded through is [cells, nonce, code, logs, bn]; bn is the   *)
 (* block number the code observes (the height being built).                 *)
 
+(* the part of the execution environment that the protocol fixes, as the Cell op `env k s` stores it (value mod 999983): *)
+(* 1 GASLIMIT = 2^64-1, 2 COINBASE = 0, 3 BASEFEE = 0, 4 GASPRICE = 0, 5 BLOBBASEFEE = 1 (the EVM's floor), 6 SELFBALANCE = 0,  *)
+(* 7 CALLVALUE = 0, 8 CHAINID (0x425243323073 off mainnet).  The same in a transaction and in a read-only simulation.    *)
+EnvVal(k) == CASE k = 1 -> 4345 [] k = 5 -> 1 [] k = 8 -> 793620 [] OTHER -> 0
+
 RECURSIVE ExecOps(_, _, _)
 ExecOps(self, ops, st) ==
   IF ops = <<>> THEN [ok |-> TRUE, st |-> st]
@@ -84,6 +89,8 @@ ExecOps(self, ops, st) ==
               IN  ExecOps(self, rest, IF r.ok THEN r.st ELSE st)
          [] o.op = "number" ->
               ExecOps(self, rest, [st EXCEPT !.cells = Put(@, <<self, o.s>>, st.bn)])
+         [] o.op = "env" ->
+              ExecOps(self, rest, [st EXCEPT !.cells = Put(@, <<self, o.s>>, EnvVal(o.k))])
          [] o.op = "burn" -> ExecOps(self, rest, st)
          [] o.op = "ret" -> [ok |-> TRUE, st |-> st]
          [] o.op = "selfdestruct" -> [ok |-> TRUE, st |-> st]
